@@ -38,6 +38,7 @@ type World struct {
 	Lemmas       []*Contract
 	tags         map[string]int
 	tagNames     []string
+	tagTypes     []types.Type
 	mu           sync.Mutex
 	tagMu        sync.Mutex
 	implCache    map[string][]types.Type
@@ -55,6 +56,7 @@ type Clause struct {
 	Info  *types.Info
 	Props []string
 	Slow  bool
+	Callee string
 }
 
 type Contract struct {
@@ -74,6 +76,7 @@ type Contract struct {
 	File     string
 	Line     int
 	Options  map[string]bool
+	AtCalls  []*Clause
 	Splits   []*Clause // case-split predicates (over the entry state): every obligation is proved once per case
 	Nocheck  bool // contract is assumed at call sites but the body is not verified here (trusted)
 	NoOverread bool
@@ -156,6 +159,12 @@ func bufValid(b any) bool { return b != nil }
 // bufSmall(b): bufValid and, additionally, capacity and growth increments below 2^26 bytes
 // (the precondition of every serialiser: an assumption about memory size, not about the code).
 func bufSmall(b any) bool { return b != nil }
+
+// sends(): ghost counter of datagrams handed to transport.Send so far.
+func sends() int { return 0 }
+
+// metric(m): ghost value of a prometheus counter / gauge.
+func metric(m any) int { return 0 }
 
 // bufRoom(b, front, back): the buffer can take front more bytes in front and back more behind without reallocating.
 func bufRoom(b any, front, back int) bool { return b != nil }
@@ -406,6 +415,21 @@ func (w *World) parseContracts(p *packages.Package, file, src string) error {
 		}
 		cl.Text = rest
 		switch kw {
+		case "at":
+			// at <callee substring> assert [tag] expr
+			f := strings.SplitN(rest, " assert ", 2)
+			if len(f) != 2 {
+				return fmt.Errorf("%s:%d: expected: at <callee> assert <expr>", file, i+1)
+			}
+			cl.Callee = strings.TrimSpace(f[0])
+			rest = strings.TrimSpace(f[1])
+			cl.Tag = ""
+			if tm := tagRe.FindStringSubmatch(rest); tm != nil {
+				cl.Tag = tm[1]
+				rest = tm[2]
+			}
+			cl.Text = rest
+			cur.AtCalls = append(cur.AtCalls, cl)
 		case "split":
 			cur.Splits = append(cur.Splits, cl)
 		case "requires":
@@ -510,6 +534,7 @@ func (w *World) typeTag(t types.Type) int {
 	n := len(w.tags) + 1
 	w.tags[key] = n
 	w.tagNames = append(w.tagNames, key)
+	w.tagTypes = append(w.tagTypes, t)
 	return n
 }
 
